@@ -123,6 +123,9 @@ def format_pseudocode_traceback(tb):
 
 
 class BitstreamValidator(object):
+    class _PictureOutputError(Exception):
+        """Thrown when a decoded picture file could not be written."""
+
     def __init__(self, filename, show_status, verbose, output_filename):
         """
         Parameters
@@ -183,6 +186,12 @@ class BitstreamValidator(object):
             self._print_conformance_error(e, traceback.extract_tb(exc_tb))
             self._print_error("non-conformant bitstream (see above)")
             return 2
+        except BitstreamValidator._PictureOutputError as e:
+            # A decoded picture could not be written (not a bitstream or
+            # validator problem)
+            self._hide_status_line()
+            self._print_error(str(e))
+            return 1
         except Exception as e:
             # Internal error (shouldn't happen(!))
             self._hide_status_line()
@@ -199,12 +208,17 @@ class BitstreamValidator(object):
         filename = self._output_filename % (self._next_picture_index,)
         self._next_picture_index += 1
 
-        write(
-            picture,
-            video_parameters,
-            picture_coding_mode,
-            filename,
-        )
+        try:
+            write(
+                picture,
+                video_parameters,
+                picture_coding_mode,
+                filename,
+            )
+        except (IOError, OSError) as e:
+            raise BitstreamValidator._PictureOutputError(
+                "could not write decoded picture: {}".format(e)
+            )
 
         if self._show_status:
             self._update_status_line("Decoded picture written to {}".format(filename))
